@@ -222,7 +222,7 @@ def task_tables(a, env):
     else:
         small_exps = [0, 1, 2, 3, q - 1, q]
         more_exps = sorted(set(range(4, 17)) | {p, p * p, q + 1})
-    huge = [2 ** 700 + 1, 2 ** 4400 + 1, fl.IntSub(q + 2), 10 ** 4400 + 7]
+    huge = [2 ** 700 + 1, 2 ** 4400 + 1, fl.IntSub(q + 2), 2 ** 61 - 1 + 2, 10 ** 4400 + 7]
     for i, xm in enumerate(A):
         cmp("neg", xm)
         cmp("inv", xm)
